@@ -100,6 +100,7 @@ type Interp struct {
 	goInline     bool
 	mfs          *modelFS
 	gobVals      []Value
+	gzVals       [][]*Term
 	jsonT        map[int]types.Type
 	seenTerm     map[*Term]bool
 	constrained  map[string]bool
